@@ -91,21 +91,24 @@ class Log(object):
         if off < self.earliest() or off > self.end:
             return ("err", "outOfRange")
         idx = next((i for i, e in enumerate(self.entries) if e[0] >= off), len(self.entries))
-        # a compressed wrapper delivers the whole set: a few messages below the requested offset
-        back = rng.choice([0, 0, 0, 1, 2, 3])
-        lo = max(0, idx - back)
         items, used = [], 0
-        for e in self.entries[lo:]:
+        for e in self.entries[idx:]:
             if used + e[2] > max_bytes:
                 break
             items.append((e[0], e[1]))
             used += e[2]
             if len(items) >= 6 and rng.random() < 0.5:
                 break
-        took_new = any(o >= off for o, _ in items)
-        if not took_new and idx < len(self.entries):
+        if not items and idx < len(self.entries):
             # the next message does not fit: the broker sends a partial message
-            return ("ok", [] if rng.random() < 0.8 else [it for it in items if it[0] < off], "small")
+            return ("ok", [], "small")
+        # a compressed wrapper delivers the whole set: a few messages below the requested offset (when they fit too)
+        back = rng.choice([0, 0, 0, 1, 2, 3])
+        for e in reversed(self.entries[max(0, idx - back):idx]):
+            if used + e[2] > max_bytes:
+                break
+            items.insert(0, (e[0], e[1]))
+            used += e[2]
         return ("ok", items, "end")
 
     def msgs(self):
